@@ -435,8 +435,8 @@ impl OutputFormat for IcyDraw {
                                             crate::Role::Normal => {
                                                 let mut o = 0;
                                                 for y in layer.get_line_count()..layer.get_height() {
-                                                    if o >= bytes.len() {
-                                                        // will be continued in a later chunk.
+                                                    if o >= bytes.len() || layer.get_width() <= 0 {
+                                                        // will be continued in a later chunk (rows without columns hold no data).
                                                         break;
                                                     }
                                                     for x in 0..layer.get_width() {
@@ -606,8 +606,8 @@ impl OutputFormat for IcyDraw {
                                             return Err(anyhow::anyhow!("data length out ouf bounds {} data lenth: {}", length, bytes.len() - o));
                                         }
                                         for y in 0..height {
-                                            if o >= bytes.len() {
-                                                // will be continued in a later chunk.
+                                            if o >= bytes.len() || width <= 0 {
+                                                // will be continued in a later chunk (rows without columns hold no data).
                                                 break;
                                             }
                                             for x in 0..width {
